@@ -171,6 +171,9 @@ def digest(results):
             "true_type": type(ss.true_object).__name__,
             "true": _stacked(ss.true_object),
             "testers": [(type(t).__name__, _stacked(t)) for t in ss.tester_objects],
+            "n_rep": int(ss.n_rep),
+            "num_data": [int(n) for n in ss.num_data],
+            "seed_data": int(ss.seed_data),
             "empi": [[[(int(n), np.array(p, dtype=np.float64)) for (n, p) in dists] for dists in rep] for rep in r.empi_dists_sequences],
             "est": [[np.array(v, dtype=np.float64) for v in er.estimated_var_sequence] for er in r.estimation_results],
             "check": None
@@ -195,7 +198,7 @@ def first_diff(a, b, path=""):
     if isinstance(a, dict) and isinstance(b, dict):
         if sorted(a) != sorted(b):
             return f"{path}: keys {sorted(a)} vs {sorted(b)}"
-        for k in sorted(a):
+        for k in a:  # insertion order (true object, testers, data, estimates, checks)
             d = first_diff(a[k], b[k], f"{path}.{k}")
             if d:
                 return d
@@ -241,7 +244,11 @@ def main(argv):
         job = json.load(f)
     cfg = job["cfg"]
     repo = os.path.realpath(job["repo"])
-    out = {"runs": [], "error": None, "daemon": None, "jobs_effective": {}}
+    out = {"runs": [], "error": None, "daemon": None, "jobs_effective": {}, "stopped_early": False}
+    reference = None
+    if job.get("reference"):
+        with open(job["reference"], "rb") as f:
+            reference = pickle.load(f)
     import multiprocessing as mp
 
     out["daemon"] = bool(mp.current_process().daemon)
@@ -258,7 +265,11 @@ def main(argv):
                 # what joblib will really use here (1 would make the comparison vacuous)
                 out["jobs_effective"][str(n)] = int(joblib.effective_n_jobs(n))
             res, _ = run_flow(cfg, pm)
-            out["runs"].append((mode_name(pm), digest(res)))
+            dg = digest(res)
+            out["runs"].append((mode_name(pm), dg))
+            if reference is not None and first_diff(dg, reference) is not None:
+                out["stopped_early"] = True  # the parent reports this run; no need to pay for the remaining ones
+                break
     except BaseException as e:  # relay to the parent, which classifies it
         out["error"] = {
             "type": type(e).__name__,
